@@ -73,6 +73,7 @@ type Finding struct {
 	Op          string   `json:"op,omitempty"`
 	Args        []string `json:"args,omitempty"` // anchored regexes, one per argument (missing = any)
 	Symmetric   bool     `json:"symmetric,omitempty"`
+	AnyArg      string   `json:"any_arg,omitempty"` // anchored regex that at least one argument must match
 	Rule        string   `json:"rule,omitempty"` // anchored regex on the deciding rule
 	What        string   `json:"what"`
 	Witness     *Witness `json:"witness,omitempty"`
@@ -80,6 +81,7 @@ type Finding struct {
 
 	argRe  []*regexp.Regexp
 	ruleRe *regexp.Regexp
+	anyRe  *regexp.Regexp
 }
 
 // Witness is a concrete failing case, runnable through a property's Eval.
@@ -102,6 +104,13 @@ func (f *Finding) compile() error {
 			return fmt.Errorf("finding %s: %v", f.ID, err)
 		}
 		f.argRe = append(f.argRe, re)
+	}
+	if f.AnyArg != "" {
+		re, err := regexp.Compile(`^(?s:` + f.AnyArg + `)$`)
+		if err != nil {
+			return fmt.Errorf("finding %s: %v", f.ID, err)
+		}
+		f.anyRe = re
 	}
 	if f.Rule != "" {
 		re, err := regexp.Compile(`^(?:` + f.Rule + `)$`)
@@ -135,6 +144,17 @@ func (f *Finding) Matches(v *Violation) bool {
 	}
 	if f.ruleRe != nil && !f.ruleRe.MatchString(v.Rule) {
 		return false
+	}
+	if f.anyRe != nil {
+		ok := false
+		for _, a := range v.Args {
+			if f.anyRe.MatchString(a) {
+				ok = true
+			}
+		}
+		if !ok {
+			return false
+		}
 	}
 	if f.matchArgs(v.Args) {
 		return true
